@@ -34,7 +34,7 @@ type icEvent struct {
 
 type icStack struct {
 	nTok, nStmt, nExpr int
-	reentrant          []bool  // per expression interceptor: may take the re-entrant path
+	reentrant          []bool // per expression interceptor: may take the re-entrant path
 	coin               *rand.Rand
 	viaPlugin          bool
 	interleave         []byte // installation order of kinds, e.g. "tsetse"
@@ -166,13 +166,33 @@ func checkInterception(t *fw.T, src string, rd *gen.Rendered, s *icStack, m Mode
 	}
 	run := &icRun{}
 	s.coin = rand.New(rand.NewPCG(seed, 77))
+	var pb *parser.Builder
+	if !t.Guard("install interceptors", wit, func() { pb = s.build(m, run) }) {
+		return
+	}
+	// one builder builds several parsers one after the other: every one of them must behave the same
+	for rep := 0; rep < 3; rep++ {
+		run.events, run.tokens, run.out = nil, nil, ParseOut{}
+		if !checkOneInterceptedParse(t, src, rd, s, m, pb, run, base, rep, wit) {
+			return
+		}
+	}
+}
+
+// checkOneInterceptedParse builds one more parser from pb, parses src and checks every clause; false = stop.
+func checkOneInterceptedParse(t *fw.T, src string, rd *gen.Rendered, s *icStack, m Mode, pb *parser.Builder, run *icRun, base ParseOut, rep int, wit0 func() map[string]any) bool {
+	wit := func() map[string]any {
+		w := wit0()
+		w["build_number"] = rep + 1
+		return w
+	}
 	ok := t.Guard("parse with interceptors", wit, func() {
-		p := s.build(m, run).Build(src)
+		p := pb.Build(src)
 		prog, err := p.ParseProgram()
 		run.out = ParseOut{Prog: prog, Err: err, Errors: p.Errors(), P: p}
 	})
 	if !ok {
-		return
+		return false
 	}
 	t.Count("parses_with_interceptors", 1)
 	t.Count("interceptor_invocations", len(run.events))
@@ -194,7 +214,7 @@ func checkInterception(t *fw.T, src string, rd *gen.Rendered, s *icStack, m Mode
 		w := wit()
 		w["errors_without"], w["errors_with"] = base.Errors, run.out.Errors
 		t.Violate("transparency-errors", key, "installing interceptors changes the error list of "+fmt.Sprintf("%q", clip(src, 160)), w)
-		return
+		return false
 	}
 	if !reflect.DeepEqual(base.Prog, run.out.Prog) {
 		w := wit()
@@ -202,14 +222,14 @@ func checkInterception(t *fw.T, src string, rd *gen.Rendered, s *icStack, m Mode
 		t.Guard("normalise", nil, func() { a, b = norm.SPlus(base.Prog), norm.SPlus(run.out.Prog) })
 		w["tree_without"], w["tree_with"] = a, b
 		t.Violate("transparency-tree", key+"/"+diffKey(a, b), "installing interceptors changes the tree of "+fmt.Sprintf("%q", clip(src, 160)), w)
-		return
+		return false
 	}
 	if base.Err == nil {
 		for _, c := range []Cfg{CfgCompact, CfgPretty} {
 			var x, y string
 			if t.Guard("compile", wit, func() { x, y = c.Compile(base.Prog).Code, c.Compile(run.out.Prog).Code }) && x != y {
 				t.Violate("transparency-output", key+"/"+c.String(), "installing interceptors changes the "+c.String()+" output", wit())
-				return
+				return false
 			}
 		}
 	}
@@ -225,7 +245,7 @@ func checkInterception(t *fw.T, src string, rd *gen.Rendered, s *icStack, m Mode
 			w := wit()
 			w["tokens_plain"], w["tokens_seen"] = len(plain), n+1
 			t.Violate("transparency-tokens", "token sequence", "tokens delivered through interceptors differ from the plain token stream of "+fmt.Sprintf("%q", clip(src, 160)), w)
-			return
+			return false
 		}
 	}
 	// --- per-kind sequences and order
@@ -249,7 +269,7 @@ func checkInterception(t *fw.T, src string, rd *gen.Rendered, s *icStack, m Mode
 				w := wit()
 				w["first"], w["other"] = len(seqs[seqKey{kind, 0}]), len(seqs[seqKey{kind, i}])
 				t.Violate("steps-differ", names[kind], fmt.Sprintf("%s interceptors #0 and #%d saw different step sequences (%d vs %d steps) on %q", names[kind], i, len(seqs[seqKey{kind, 0}]), len(seqs[seqKey{kind, i}]), clip(src, 160)), w)
-				return
+				return false
 			}
 		}
 	}
@@ -265,7 +285,7 @@ func checkInterception(t *fw.T, src string, rd *gen.Rendered, s *icStack, m Mode
 			if e.idx > 0 {
 				if lastKind != e.kind || lastIdx != e.idx-1 || lastStart != e.start {
 					t.Violate("installation-order", names[e.kind], fmt.Sprintf("%s interceptor #%d entered without #%d entering the same step just before it, on %q", names[e.kind], e.idx, e.idx-1, clip(src, 160)), wit())
-					return
+					return false
 				}
 			}
 			lastKind, lastIdx, lastStart = e.kind, e.idx, e.start
@@ -279,7 +299,7 @@ func checkInterception(t *fw.T, src string, rd *gen.Rendered, s *icStack, m Mode
 			}
 			if e.idx != (ti+1)%max(1, s.nTok) {
 				t.Violate("token-chain-order", "chain", fmt.Sprintf("token interceptors did not run once each per token in chain order (saw #%d after #%d) on %q", e.idx, ti, clip(src, 160)), wit())
-				return
+				return false
 			}
 			ti = e.idx
 		}
@@ -290,12 +310,12 @@ func checkInterception(t *fw.T, src string, rd *gen.Rendered, s *icStack, m Mode
 			t.Count("hook_binding_power_checked", 1)
 			if e.precBefore != e.precAfter {
 				t.Violate("binding-power-restored", key, fmt.Sprintf("current binding power %d on entry, %d after the step, on %q", e.precBefore, e.precAfter, clip(src, 160)), wit())
-				return
+				return false
 			}
 		}
 	}
 	if rd == nil || base.Err != nil {
-		return
+		return true
 	}
 	// --- ground truth: current tokens are construct starts; every construct offered once
 	byPos := map[token.Position]*gen.Tok{}
@@ -310,18 +330,18 @@ func checkInterception(t *fw.T, src string, rd *gen.Rendered, s *icStack, m Mode
 			gt := byPos[p]
 			if gt == nil || !gt.StmtStart {
 				t.Violate("statement-current-token", "not a statement start", fmt.Sprintf("statement interceptor ran with current token at %v which is not the first token of a statement: %s", p, gen.Describe(src)), wit())
-				return
+				return false
 			}
 			if seen[p] > 1 {
 				t.Violate("statement-current-token", "offered twice", fmt.Sprintf("statement at %v offered twice: %s", p, gen.Describe(src)), wit())
-				return
+				return false
 			}
 		}
 		for i := range rd.Toks {
 			tk := &rd.Toks[i]
 			if tk.StmtStart && seen[token.Position{Line: tk.Line, Column: tk.Col}] == 0 {
 				t.Violate("statement-current-token", "never offered", fmt.Sprintf("statement starting with %q at %d:%d was never offered to the statement interceptors: %s", tk.Text, tk.Line, tk.Col, gen.Describe(src)), wit())
-				return
+				return false
 			}
 		}
 	}
@@ -332,18 +352,18 @@ func checkInterception(t *fw.T, src string, rd *gen.Rendered, s *icStack, m Mode
 			gt := byPos[p]
 			if gt == nil || gt.ExprStarts == 0 {
 				t.Violate("expression-current-token", "not an expression start", fmt.Sprintf("expression interceptor ran with current token at %v which does not begin a (sub)expression: %s", p, gen.Describe(src)), wit())
-				return
+				return false
 			}
 			if seen[p] > 1 {
 				t.Violate("expression-current-token", "offered twice", fmt.Sprintf("expression start at %v offered twice: %s", p, gen.Describe(src)), wit())
-				return
+				return false
 			}
 		}
 		for i := range rd.Toks {
 			tk := &rd.Toks[i]
 			if tk.FullExpr && seen[token.Position{Line: tk.Line, Column: tk.Col}] == 0 {
 				t.Violate("expression-current-token", "full expression never offered", fmt.Sprintf("full expression starting with %q at %d:%d was never offered: %s", tk.Text, tk.Line, tk.Col, gen.Describe(src)), wit())
-				return
+				return false
 			}
 		}
 	}
@@ -358,11 +378,11 @@ func checkInterception(t *fw.T, src string, rd *gen.Rendered, s *icStack, m Mode
 				gt := rd.Toks[k]
 				if e.lxLine != gt.Line || e.lxCol != gt.Col || e.lxChar != gt.Text[0] {
 					t.Violate("token-lexer-position", classOf(e.ret.Type), fmt.Sprintf("token interceptor entered with the lexer at %d:%d on %q, the next lexeme %q begins at %d:%d: %s", e.lxLine, e.lxCol, e.lxChar, gt.Text, gt.Line, gt.Col, gen.Describe(src)), wit())
-					return
+					return false
 				}
 			} else if e.lxLine != rd.EOF.Line || e.lxCol != rd.EOF.Col {
 				t.Violate("token-lexer-position", "end of input", fmt.Sprintf("token interceptor entered at %d:%d for end of input, which is at %d:%d", e.lxLine, e.lxCol, rd.EOF.Line, rd.EOF.Col), wit())
-				return
+				return false
 			}
 			k++
 		}
@@ -370,6 +390,7 @@ func checkInterception(t *fw.T, src string, rd *gen.Rendered, s *icStack, m Mode
 			t.Violate("token-once", "missing", fmt.Sprintf("token interceptor ran %d times for %d tokens + end of input", k, len(rd.Toks)), wit())
 		}
 	}
+	return true
 }
 
 func init() {
